@@ -25,6 +25,17 @@ var regions = []string{"us-west-2", "us-east-1", "eu-west-1", "ap-south-1"}
 
 func arn(r string) string { return "arn:aws:kms:" + r + ":key" }
 
+// altNames: the plugin being built names each region's key by its alias ARN instead of its key ARN (the same key; the
+// "arn" recorded in an envelope entry is only the name its writer was configured with).
+var altNames bool
+
+func arnFor(r string) string {
+	if altNames {
+		return "arn:aws:kms:" + r + ":alias/key"
+	}
+	return arn(r)
+}
+
 // world is the fake cloud: one KMS per region, blobs are region-bound.
 type world struct {
 	failGen, failEnc, failDec map[string]bool
@@ -200,7 +211,7 @@ func build(version int, w *world, n int, preferred string) (ae.KeyManagementServ
 	if version == 2 {
 		arnMap := map[string]string{}
 		for _, r := range regions[:n] {
-			arnMap[r] = arn(r)
+			arnMap[r] = arnFor(r)
 		}
 		vx.MapOrderAll(true)
 		// the caller's base config may already name a region (AWS_REGION, shared config): every regional client
@@ -238,7 +249,7 @@ func build(version int, w *world, n int, preferred string) (ae.KeyManagementServ
 	order = append([]string{preferred}, order...)
 	k := &v1.AWSKMS{Crypto: crypto}
 	for _, r := range order {
-		k.Clients = append(k.Clients, v1.AWSKMSClient{KMS: &fakeV1{w, r}, Region: r, ARN: arn(r)})
+		k.Clients = append(k.Clients, v1.AWSKMSClient{KMS: &fakeV1{w, r}, Region: r, ARN: arnFor(r)})
 	}
 	return k, order
 }
@@ -338,7 +349,12 @@ func WrapUnwrap() {
 		unwrapper = wrapper
 		vx.Tag("unwrap_by", "same-instance")
 	} else {
+		if vx.Param("altarn") == 1 && vx.Choice("reader_names_keys_differently", 2) == 1 {
+			altNames = true
+			vx.Tag("reader_arns", "alias")
+		}
 		unwrapper, _ = build(uv, w, n, preferred)
+		altNames = false
 	}
 	out, err := unwrapper.DecryptKey(context.Background(), env)
 	canUnwrap := false
